@@ -10,7 +10,10 @@ FF10 AC error information, FF30 console version):
   records that agree with it record by record (`Agree…`: the field correspondence of `harness/specmap.py`, each named
   relaxation an explicit disjunct).  Added hypotheses, each with a `…_refuted` witness showing it is needed:
   FF12 `msgLen = b.length` (what the receive path guarantees); FF10 / FF30 "the length byte does not exceed the bytes
-  that follow"; FF11 the recorded following-length defect (records with a documented following length 22 / 24 only).
+  that follow".  FF11 (AC ability) holds for EVERY "following length" (the decoder advances by that byte, as the vendor
+  reader does; the former hypothesis "documented following lengths 22 / 24 only" is gone): `…_FF11` whenever the vendor
+  reading exists, `…_FF11_strong` proves it exists when the announced bytes are there (`msgLen ≤ b.length`, what the
+  receive path guarantees; `…_FF11_needs_length`, and `…_FF11_vendor_reads_iff`: that is the exact condition).
 * `C05_g4_request_form_<kind>` — a payload decoded as the request form sharing the id is `none` / zero records for
   the vendor's response reader.
 * `C05_g4_undefined_rejected_<kind>` (2B, 2D: the kinds whose public type has enum fields) — a payload whose vendor
@@ -44,7 +47,10 @@ theorem C05_g4_request_form_FF30 : type_of% @request_form_FF30 := @request_form_
 
 theorem C05_g4_decode_agrees_FF11 : type_of% @decode_agrees_FF11 := @decode_agrees_FF11
 theorem C05_g4_decode_agrees_FF11_strong : type_of% @decode_agrees_FF11_strong := @decode_agrees_FF11_strong
-theorem C05_g4_decode_agrees_FF11_refuted : type_of% @decode_agrees_FF11_refuted := @decode_agrees_FF11_refuted
+theorem C05_g4_decode_agrees_FF11_needs_length : type_of% @decode_agrees_FF11_needs_length :=
+  @decode_agrees_FF11_needs_length
+theorem C05_g4_decode_FF11_vendor_reads_iff : type_of% @decode_FF11_vendor_reads_iff := @decode_FF11_vendor_reads_iff
+theorem C05_g4_decode_FF11_long_record : type_of% @decode_FF11_long_record := @decode_FF11_long_record
 theorem C05_g4_request_form_FF11 : type_of% @request_form_FF11 := @request_form_FF11
 
 /-! ## Non-vacuity: the vendor document's own example payloads, decoded by both sides -/
@@ -126,14 +132,25 @@ def isOneAbility : Except DecErr (FF11.Msg × Bytes) → Bool
   | .ok (.ability [_], []) => true
   | _ => false
 
--- the decoder accepts it (one AC), its walk meets the documented length 22 only, so both theorems apply
+-- the decoder accepts it (one AC) and the announced 24 bytes are there, so both theorems apply
 example : isOneAbility (FF11.decode vendorFF11 24) = true := by decide +kernel
-example : followingLengths vendorFF11.length vendorFF11 = [22] := by decide
 example : (Spec.At4.readAcAbility ([0xFF, 0x11] ++ vendorFF11)).map (·.map fun r => (r.ac, r.followingLength, r.name)) =
     some [(0, 22, [0x55, 0x4e, 0x49, 0x54])] := by decide
 
 example (acs : List FF11.AcAbility) (h : FF11.decode vendorFF11 24 = .ok (.ability acs, [])) :
     ∃ recs, Spec.At4.readAcAbility ([0xFF, 0x11] ++ vendorFF11) = some recs ∧ AgreeList AgreeAcAbility acs recs :=
   C05_g4_decode_agrees_FF11_strong vendorFF11 24 (by decide) acs h (by decide)
+
+-- a longer record (following length 46: the described bytes, display bytes `05 80`, 22 bytes of a future console):
+-- the decoder accepts it as ONE AC with groups {0, 2, 15}, the vendor reader reads one record of following length 46
+-- with 22 undescribed bytes, and the theorem applies
+example : isOneAbility (FF11.decode ff11LongRecord 48) = true := by decide +kernel
+example : (Spec.At4.readAcAbility ([0xFF, 0x11] ++ ff11LongRecord)).map
+      (·.map fun r => (r.ac, r.followingLength, r.name, r.extra.length)) =
+    some [(0, 46, [0x55, 0x4e, 0x49, 0x54], 22)] := by decide +kernel
+
+example (acs : List FF11.AcAbility) (h : FF11.decode ff11LongRecord 48 = .ok (.ability acs, [])) :
+    ∃ recs, Spec.At4.readAcAbility ([0xFF, 0x11] ++ ff11LongRecord) = some recs ∧ AgreeList AgreeAcAbility acs recs :=
+  C05_g4_decode_agrees_FF11_strong ff11LongRecord 48 (by decide) acs h (by decide)
 
 end PyAirtouch.Props.C05
